@@ -3,7 +3,7 @@
 (* Model checking / behaviour generation for IndexWrapper.                 *)
 (*                                                                         *)
 (* MC_IndexWrapper*.cfg : exhaustive search of all operation sequences up  *)
-(*   to Depth calls (Bound), all 8 flag combinations x 3 classifier kinds  *)
+(*   to Depth calls, all 8 flag combinations x 3 classifier kinds          *)
 (*   x stored weights none/given x (not fitted | fitted | fitted + base    *)
 (*   through __init__), labels {0, 1, missing}, weights {none, 1, 2}.      *)
 (* IndexWrapper_gen*.cfg / IndexWrapper_sim.cfg : the same state machine   *)
@@ -39,7 +39,7 @@ ArgsWide == UNION {ArgsOf(I, AllY(I), AllW(I)) : I \in Lists(MCN, MaxLen)}
 \* swapped labels
 ArgsMid == UNION {ArgsOf(I, AllY(I), AllW(I)) : I \in Lists(MCN, 1)}
            \cup UNION {ArgsOf(I, {<<>>, <<1, 0>>, <<Missing, 1>>}, {<<>>, <<2, 1>>})
-                       : I \in Lists(MCN, 2)}
+                       : I \in [1..2 -> 1..MCN]}
 \* narrow: a handful of calls that still meet every mechanism (stored label,
 \* override, stored missing label, override by missing, repeated sample,
 \* duplicate inside one call, weights none / 1 / 2)
@@ -93,10 +93,10 @@ MCCfgs == {c \in AllCfgs : CfgSel = "all" \/ ((c.kind # "pwc" => ~c.su) /\ (c.ki
 
 MCInit == Init /\ done = FALSE
 
-\* exhaustive model checking: all behaviours up to Depth calls
-MCNext == Next /\ UNCHANGED done
+\* exhaustive model checking: all behaviours of up to Depth calls (the initial
+\* state has level 1; states reached by Depth calls are checked, not expanded)
+MCNext == TLCGet("level") <= Depth /\ Next /\ UNCHANGED done
 MCSpec == MCInit /\ [][MCNext]_mvars
-Bound  == TLCGet("level") <= Depth + 1       \* the initial state has level 1
 \* configurations the state machine cannot tell apart (it reads cfg only
 \* through Native, SU, eu, the stored labels / weights and the prefit mode)
 \* are explored once
